@@ -1,12 +1,14 @@
 import Slock.Proofs.EngineWake
 import Slock.Proofs.EngineConsts
+import Slock.Proofs.EngineQuiet
+import Slock.Properties.C05
 /-!
 # C04 — no lost wake-up; queued requests are served in order
 
 "Admissible" is the engine's own `doLock`. `Settled k` = nothing is queued, or the head queued request is not admissible.
 -/
 namespace Slock.C04
-open Slock.Engine
+open Slock.Engine Slock.C01
 
 /-- Queue order (1): a newly queued request is placed behind every queued request of equal or higher priority and
 in front of the strictly lower ones — it never overtakes an earlier request of equal or higher priority. -/
@@ -43,33 +45,158 @@ theorem C04_after_expiry (db : DB) (key : Nat) (h : Hold) : Settled ((fireExpire
   unfold fireExpire
   apply settled_after_wake'; exact getKey_key _ _
 
-/-! ### The full quiescent claim FAILS on the unchanged code (finding F4)
+/-! ### The quiescent claim (engine with the C04 fix)
 
-`C04_quiescent` would say: in every reachable state, every key is `Settled`. It is false: when the HEAD WAITER leaves the
-queue by timing out (or being cancelled), or when an update / re-lock raises the oldest holder's Count, no wake pass
-runs. Concrete witness below (`decide` on the executable model; the same history is replayed on the real engine by the
-differential harness, which agrees, and by the monitor, which reports it as a known finding). -/
+Finding F4 (recorded on the unchanged code): when the HEAD waiter left the queue by timing out or being cancelled, or
+when an update / re-lock replaced a hold's command by one with a higher Count, no wake pass ran and an admissible
+request stayed queued. The fix adds a wake pass after each of these four steps; the model mirrors it (`applyLock .update`,
+`.relock`, `applyUnlock .cancel`, `fireTimeout`). With it the claim holds in EVERY reachable state. -/
+
+/-- request ids are not reused while a request bearing them is still queued (what real clients guarantee; the model's
+timeout sweep identifies a queued request by (connection, RequestId) when it re-arms it) -/
+def FreshRun : DB → List Op → Prop
+  | _, [] => True
+  | db, o :: ops => (match o with | .lock c => Fresh db c | _ => True) ∧ FreshRun (step db o) ops
+
+theorem reachable_IQ (ops : List Op) : ∀ (db : DB), IQ db → FreshRun db ops → IQ (run db ops) := by
+  induction ops with
+  | nil => intro db h _; exact h
+  | cons o os ih =>
+    intro db h hf
+    have e : run db (o :: os) = run (step db o) os := rfl
+    rw [e]
+    apply ih _ _ hf.2
+    cases o with
+    | lock c => exact opLock_iq db c hf.1 h
+    | unlock c => exact opUnlock_iq db c h
+    | tick => exact opTick_iq db h
+    | setLeader b => exact ⟨h.1.of_keys_eq rfl, h.2.of_keys_eq rfl⟩
+
+/-- **C04 — no lost wake-up (quiescent claim).** After every completed operation of every operation sequence (LOCK,
+UNLOCK, ticks, role flips), for every key: the `waited` flag is set exactly when something is queued, and the head of the
+wait queue is not admissible (`doLock` refuses it) — the one exception being a request that carries the
+wait-when-unlocked flag on an unlocked key: it is queued by its own flag although `doLock` would let it in (the monitor
+`C04:admissible-head-queued` makes the same exclusion). No exclusion is needed for priority requests: a request that
+jumps to the head of the queue was refused by `doLock`, or `classifyLock` would have granted it. -/
+theorem C04_quiescent (now : Nat) (ops : List Op) (hf : FreshRun (DB.init now) ops) :
+    ∀ k ∈ (run (DB.init now) ops).keys,
+      (k.waited = true ↔ k.waiters ≠ []) ∧
+      ∀ w rest, k.waiters = w :: rest →
+        doLock k w.cmd = false ∨ (k.locked = 0 ∧ has w.cmd.tflag TF_WAIT_UNLOCK = true) := by
+  intro k hk
+  have := (reachable_IQ ops _ (IQ.init now) hf).2 k hk
+  exact ⟨this.flag, this.head⟩
+
+/-- the same, by key id -/
+theorem C04_quiescent_key (now : Nat) (ops : List Op) (hf : FreshRun (DB.init now) ops) (n : Nat) :
+    Quiet ((run (DB.init now) ops).getKey n) :=
+  getKey_quiet (reachable_IQ ops _ (IQ.init now) hf).2 n
+
+/-- In particular: a queued request without the wait-when-unlocked flag is never admissible at the head of its queue,
+and on a key with something outstanding no head request is. -/
+theorem C04_no_lost_wakeup (now : Nat) (ops : List Op) (hf : FreshRun (DB.init now) ops) (n : Nat) (w : Waiter) (rest : List Waiter)
+    (hw : ((run (DB.init now) ops).getKey n).waiters = w :: rest)
+    (hx : has w.cmd.tflag TF_WAIT_UNLOCK = false ∨ ((run (DB.init now) ops).getKey n).locked ≠ 0) :
+    doLock ((run (DB.init now) ops).getKey n) w.cmd = false := by
+  rcases (C04_quiescent_key now ops hf n).head w rest hw with h | ⟨h1, h2⟩
+  · exact h
+  · rcases hx with hx | hx
+    · rw [hx] at h2; simp at h2
+    · exact absurd h1 hx
+
+/-- in the vocabulary of `Settled` / `headAdmissible` -/
+theorem C04_headAdmissible (now : Nat) (ops : List Op) (hf : FreshRun (DB.init now) ops) (n : Nat)
+    (h : headAdmissible ((run (DB.init now) ops).getKey n) = true) :
+    ((run (DB.init now) ops).getKey n).locked = 0 ∧
+      ∃ w rest, ((run (DB.init now) ops).getKey n).waiters = w :: rest ∧ has w.cmd.tflag TF_WAIT_UNLOCK = true := by
+  unfold headAdmissible at h
+  cases hw : ((run (DB.init now) ops).getKey n).waiters with
+  | nil => simp [hw] at h
+  | cons w rest =>
+    simp only [hw, Bool.and_eq_true] at h
+    rcases (C04_quiescent_key now ops hf n).head w rest hw with h1 | ⟨h1, h2⟩
+    · rw [h.2] at h1; simp at h1
+    · exact ⟨h1, w, rest, rfl, h2⟩
+
+open Slock.C03 Slock.C05 in
+/-- connection-unique RequestIds (the premise of C03 / C05) are fresh in the above sense -/
+theorem freshRun_of_unique (now : Nat) (ops : List Op) (hu : ∀ x, (issued ops).count x ≤ 1) : FreshRun (DB.init now) ops := by
+  have gen : ∀ (post pre : List Op), (∀ x, (issued (pre ++ post)).count x ≤ 1) → FreshRun (run (DB.init now) pre) post := by
+    intro post
+    induction post with
+    | nil => intro pre _; trivial
+    | cons o os ih =>
+      intro pre hu
+      refine ⟨?_, ?_⟩
+      · cases o with
+        | lock c =>
+          intro w hw hm
+          obtain ⟨n, hn⟩ := waitAt_of_allW hw
+          have hp := queued_pos_of_waitAt hn
+          have hr : w.rid = (c.conn, c.req) := by unfold Waiter.rid; rw [hm.1, hm.2]
+          have hc := conservation now pre (c.conn, c.req)
+          have ha := answered_nonneg (c.conn, c.req) (runOut (DB.init now) pre).2
+          rw [runOut_fst] at hc
+          have h1 := hu (c.conn, c.req)
+          rw [issued_append] at h1
+          simp only [issued, List.count_append, List.count_cons_self] at h1
+          rw [hr] at hp
+          omega
+        | unlock c => trivial
+        | tick => trivial
+        | setLeader b => trivial
+      · rw [← run_snoc]
+        apply ih
+        rw [← List.append_cons]; exact hu
+  exact gen ops [] (by simpa using hu)
+
+theorem C04_quiescent_unique_ids (now : Nat) (ops : List Op) (hu : ∀ x, (Slock.C03.issued ops).count x ≤ 1) (n : Nat) :
+    Quiet ((run (DB.init now) ops).getKey n) :=
+  C04_quiescent_key now ops (freshRun_of_unique now ops hu) n
+
+/-! The history that refuted the claim on the unchanged code (`C04_quiescent_fails`, dropped together with
+`C04_quiescent_counterexample`: they were `decide`-evaluations of the OLD model and are false for the repaired one):
+two holders with Count 1, W1 (Count 0) and W2 (Count 1) queued, one holder unlocks, W1 times out. On the repaired engine
+the wake pass after W1's timeout grants W2. -/
 
 def H : Cmd := { req := 1, conn := 1, flag := 0, lockId := 1, key := 7, tflag := 0, timeout := 0, eflag := 0, expried := 50, count := 1, rcount := 0 }
 def W1 : Cmd := { H with req := 2, lockId := 2, count := 0, timeout := 2 }
 def W2 : Cmd := { H with req := 3, lockId := 3, count := 1, timeout := 50 }
 
-def f4State : DB :=
-  let s0 := (opLock (DB.init 100) H).1
-  let s1 := (opLock s0 { H with req := 9, lockId := 9 }).1   -- second holder: key full for Count 1
-  let s2 := (opLock s1 W1).1
-  let s3 := (opLock s2 W2).1
-  let s4 := (opUnlock s3 { H with req := 10, lockId := 9 }).1   -- one holder left; W1 (Count 0) blocks the head
-  (opTick (opTick (opTick s4).1).1).1                          -- W1 times out
+def f4Ops : List Op :=
+  [.lock H, .lock { H with req := 9, lockId := 9 }, .lock W1, .lock W2, .unlock { H with req := 10, lockId := 9 }, .tick, .tick]
 
-theorem C04_quiescent_counterexample : headAdmissible (f4State.getKey 7) = true := by decide
+/-- the state just before W1's deadline tick -/
+def f4Pre : DB := run (DB.init 100) f4Ops
 
-theorem C04_quiescent_fails : ¬ Settled (f4State.getKey 7) :=
-  not_settled_of_headAdmissible C04_quiescent_counterexample
+/-- the premise holds for this history (its request ids are pairwise distinct) -/
+example : FreshRun (DB.init 100) (f4Ops ++ [.tick]) :=
+  freshRun_of_unique _ _ (List.nodup_iff_count.mp (by decide))
+
+example : ((f4Pre.getKey 7).waiters.map (·.cmd.req)) = [2, 3] ∧ ((f4Pre.getKey 7).holders.map (·.cmd.req)) = [1] := by decide
+/-- W1 times out at the third tick and W2 is granted in the same step -/
+theorem C04_f4_repaired :
+    (opTick f4Pre).2.map (fun r => (r.req, r.result)) = [(2, RESULT_TIMEOUT), (3, RESULT_SUCCED)] ∧
+      headAdmissible ((opTick f4Pre).1.getKey 7) = false ∧ (((opTick f4Pre).1.getKey 7).holders.map (·.cmd.req)) = [1, 3] := by
+  decide
+
+/-! The premise `FreshRun` cannot be dropped FOR THE MODEL: M-ENGINE's timeout sweep re-arms "the queued request with this
+(connection, RequestId)" (`updateWaiter`), whereas the code re-arms the lock record it holds a pointer to. With one id
+borne by two queued requests of a key the model overwrites one by a copy of the other — a modelling artefact, not a
+behaviour of the server; real clients never reuse the id of a pending request. -/
+def X0 : Cmd := { H with req := 5, lockId := 5, count := 0, timeout := 50 }
+def X1 : Cmd := { H with req := 5, lockId := 6, count := 1, timeout := 50 }
+theorem C04_quiescent_needs_fresh :
+    headAdmissible ((run (DB.init 100) [.lock H, .lock X0, .lock X1, .tick, .tick]).getKey 7) = true ∧
+      ¬ FreshRun (DB.init 100) [.lock H, .lock X0, .lock X1, .tick, .tick] := by
+  refine ⟨by decide, ?_⟩
+  intro h
+  have := h.2.2.1
+  exact this (newWaiter (step (DB.init 100) (.lock H)) X0) (by decide) ⟨rfl, rfl⟩
 
 /-- What IS proved towards the quiescent claim (`_partial`): the key is settled after every step that ends a hold
-(`C04_after_unlock`, `C04_after_expiry`) and after every wake pass; missing are exactly the steps in which a waiter
-leaves the queue without being granted, or a holder's Count is raised. -/
+(`C04_after_unlock`, `C04_after_expiry`) and after every wake pass. (On the unchanged code the steps in which a waiter left
+the queue without being granted, or a holder's Count was raised, were missing; `C04_quiescent` covers them.) -/
 theorem C04_quiescent_partial (db : DB) (k : Key) (out : List Reply) :
     Settled (((wake db k out).1.setKey (wake db k out).2.1).getKey k.key) :=
   settled_after_wake db db k out
